@@ -34,6 +34,7 @@ type reconnectState struct {
 	lastAttempt time.Time
 	timer       *time.Timer
 	timerGen    uint64 // generation of the timer that may start the next attempt
+	requested   bool   // Schedule() was called since the last attempt started
 }
 
 // Reconnector handles automatic reconnection with exponential backoff.
@@ -81,6 +82,7 @@ func (r *Reconnector) Schedule(addr string) {
 	}
 
 	// Calculate delay with jitter and schedule reconnect
+	state.requested = true
 	r.armTimer(addr, state, r.addJitter(state.nextDelay))
 }
 
@@ -116,6 +118,7 @@ func (r *Reconnector) attemptReconnect(addr string, gen uint64) {
 
 	state.attempts++
 	state.lastAttempt = time.Now()
+	state.requested = false
 
 	// Calculate next delay with exponential backoff
 	nextDelay := time.Duration(float64(state.nextDelay) * r.cfg.Multiplier)
@@ -156,6 +159,17 @@ func (r *Reconnector) attemptReconnect(addr string, gen uint64) {
 		} else {
 			// Max attempts reached, clean up
 			r.dropState(addr, state)
+		}
+	} else if state.requested {
+		// Schedule() ran while the attempt was in progress: the connection
+		// this attempt established was lost again before the callback
+		// returned (the peer manager reports a new connection from within
+		// Connect). Honour that request, otherwise the peer would never be
+		// dialled again; after a success the backoff starts over.
+		state.attempts = 0
+		state.nextDelay = r.cfg.InitialDelay
+		if !r.paused {
+			r.armTimer(addr, state, r.addJitter(state.nextDelay))
 		}
 	} else {
 		// Success! Reset state
